@@ -16,8 +16,12 @@ CLAIMED = {
             "3 (C15)"),
     "C16": ("hist+fs", "seeded histories through native/C/C++ handles created in twins; responses, failures and the simulated file layer's effect trace of create_world compared; open-failure faults; minimised replay",
             "3 (C16)"),
+    "C17": ("tool", "gwb-dat's main() run in-process on the simulated file layer with generated data files (grammar incl. comment/option/malformed lines) delivered whole, torn, corrupted, in short reads or with EINTR; stdout compared column-by-header-name with a reference formatter over the library's answers; minimised replay",
+            "3 (C17)"),
+    "C18": ("tool+sched", "gwb-grid's main() run in-process with seeded -j/worker schedules and short/interrupted writes on the simulated file layer; captured VTU files parsed (ascii and base64) and compared with a reference mesh, the library's values at every node (bit-exact in binary formats) and a reference tag selection for --filtered/--by-tag; minimised replay",
+            "3 (C18)"),
 }
-PLANNED = {k: "check under construction in this session (deterministic-simulation engine designed in DESIGN.md section 3, not yet registered)" for k in ("C17", "C18")}
+PLANNED = {}
 NA = {
     "C02": "pure function of (feature list, point): no schedule, fault, I/O delivery or history in the statement; deciding it needs input generation against a reference painter, which is a different technique",
     "C03": "closed form in the file's constants, pure function of (file, point); its 'however the request is batched' clause is exercised by C01's block oracle but the property as a whole has nothing to simulate",
@@ -33,6 +37,8 @@ NA = {
     "C20": "physical envelope of a pure function of model parameters",
 }
 LEVEL_TEXT = {
+    "C17": "Exploration under ASan/UBSan: the tool is a reader of an external stream and a formatter; runs vary the data file (options, separators, comments, malformed lines) and the way its bytes arrive, and check header names, row widths, every value under its header name, visible failure on malformed rows, and byte-identical tables for piecewise delivery. Two genuine column defects that the stored reference logs encode are listed as known findings with narrow signatures.",
+    "C18": "Exploration under ASan/UBSan: grid parameters, flags, thread counts, schedules and write faults are sampled; each captured file is parsed and judged against closed-form node sets (cartesian, chunk, annulus; shell radii/counts for the sphere), the Depth convention, the library's own answers at the stored node coordinates, and an independent re-implementation of the tag filter.",
     "C12": "Exploration under ASan/UBSan: the constructor is a reader of an external stream that it opens twice, whose errors it does not check and whose every allocation can fail; runs sample damaged documents and the ways their bytes can be delivered, and demand 'built or std::exception', rejection of what the published schema / length rules / version / JSON grammar exclude, bit-identical worlds for formatting variants, and an undamaged process afterwards. Sampling of an unbounded input space, not proof.",
     "C14": "Exploration of schedules: the scheduler owns every interleaving decision, TSan (happens-before based, blind to the scheduler's futex hand-offs) reports races without the corrupting interleaving having to be hit, and the value/byte oracles catch what is not a data race (missing join, dropped or overlapping slices, order-dependent state). Thousands of distinct decision traces per run, not all interleavings.",
     "C07": "Exploration: per run a generated slab/fault/depth-surface world is built twice, once as shipped and once with a seeded subset of the acceleration shortcuts switched off through guarded hooks; hundreds of points placed by the planar construction (deep end, top end, interior) plus uniform ones are asked of both. Any answer that differs is a point a shortcut discarded. Sampling, not proof; model-level min/max pre-tests are not buggified.",
@@ -41,6 +47,8 @@ LEVEL_TEXT = {
     "C01": "Exploration: thousands of seeded histories per run, each response compared bit for bit with a stateless reference; the bug class (state leaking from one request, world or entry point into another) only shows for particular op orders, which the seed searches and the minimiser reduces to the 2-3 ops that matter. Not a proof: histories are sampled.",
 }
 NOTE = {
+    "C17": "Trusted: the reference world is built like the tool builds it (seed 1) and asked the same batched request row by row; 'convert spherical' uses the library's public spherical_to_cartesian_coordinates (any other correct formula differs in the last bits); EIO deliveries are recorded, not judged.",
+    "C18": "Trusted: values are compared bit for bit only in the base64inline format (ASCII is written with 6 significant digits and is checked structurally); appended/raw formats are checked for their skeleton and for identical bytes across runs only; the sphere is checked for shell radii, per-shell counts and connectivity, not for cubed-sphere node positions.",
     "C12": "Trusted: rapidjson's validator run by the harness against the schema the library under test publishes (captured from the simulated disk); list-length rules transcribed from the parameter documentation and judged only when every key involved is present; malloc is never failed; EIO deliveries carry no expectation; one known finding (Delaunator on extreme depth-surface coordinates) is listed in known_findings.json.",
     "C14": "Trusted: clang's TSan runtime; the stateless reference is computed sequentially after the threads have finished; std::thread inside gwb-grid is replaced by a class of the same surface backed by the scheduler; worlds with random models are excluded as the property says.",
     "C07": "Trusted: the un-culled evaluation (shortcuts off) is the reference; S8 pairs are compared within 1e-9 relative with exact tags; a pair where only one side throws is counted as inconclusive (reported in evidence), not as a violation.",
